@@ -10,6 +10,7 @@ PCall(cols, rows, single) == [cols |-> cols, rows |-> rows, single |-> single]
 T(s) == TextV(s)
 Vals1 == {Null, IntV(0), IntV(-12), MaxV(0), MinV(0), BoolV(TRUE), T(<<>>), T(<<120, 121>>), T(<<233>>),
           T(<<39>>), T(<<34, 59>>), T(<<10>>), T(<<9, 92>>), T(<<128512>>),
+          T(<<304, 223, 8490, 64257>>), T(<<160, 120, 8195>>), T(<<128512, 769>>),
           \* TEXT that reads like JSON (a document, a number, a literal) stays a string
           T(<<91, 52, 50, 52, 50, 93>>), T(<<123, 125>>), T(<<123, 34, 97, 34, 58, 49, 125>>), T(<<91, 49, 46, 53, 48, 44, 34, 120, 34, 93>>), T(<<110, 117, 108, 108>>), T(<<116, 114, 117, 101>>), T(<<49, 50>>), T(<<34, 113, 34>>),
           \* control characters without a short JSON escape (ESC, NUL, BEL, US, DEL), CR, \b \f, line separator U+2028, BOM, backslash + quote, the last code point
